@@ -13,6 +13,9 @@ var registry = map[string]func(*checks.Run) int{
 	"C02": checks.CheckC02,
 	"C03": checks.CheckC03,
 	"C04": checks.CheckC04,
+	"C12": checks.CheckC12,
+	"C13": checks.CheckC13,
+	"C14": checks.CheckC14,
 }
 
 func main() {
